@@ -1524,12 +1524,25 @@ class Runner
     // assignment - must have been assigned through that operator: their stamp is newer than the clock before the op
     struct StampSnap
     {
-        const Stamped* p;
+        const unsigned char* p;
+        int32_t value;
+        uint32_t stamp;
+        int kind;  // stamp_kind_v of the object's type
+    };
+    struct StampView
+    {
         int32_t value;
         uint32_t stamp;
     };
+    static StampView stamp_view(const unsigned char* p)
+    {
+        StampView w;
+        std::memcpy(&w, p, sizeof w);  // Stamped, MvStamped and CpStamped share this layout
+        return w;
+    }
     std::vector<StampSnap> stamp_snaps;
     uint32_t stamp_t0{};
+    int assign_mode{};  // set by the operation: 1 = copy assignment of the fields, 2 = move assignment / swap, 0 = unknown
     static bool assigns_through_references(uint8_t k)
     {
         return k == K_REFASSIGN || k == K_REFSWAP || k == K_ITERSWAP || k == K_ROTATE || k == K_REVERSE || k == K_SWAPRANGES ||
@@ -1548,11 +1561,12 @@ class Runner
                 {
                     auto ex = extents(v[i]);
                     for (std::size_t k = 0; k < N; ++k)
-                        if (LI::stamped[k])
+                        if (LI::stamp_kind[k] != 0)
                             for (std::size_t j = 0; j < ex[k].count; ++j)
                             {
-                                auto* p = reinterpret_cast<const Stamped*>(ex[k].begin + j * ex[k].tsize);
-                                stamp_snaps.push_back({p, p->value, p->stamp});
+                                auto* p = reinterpret_cast<const unsigned char*>(ex[k].begin + j * ex[k].tsize);
+                                const auto w = stamp_view(p);
+                                stamp_snaps.push_back({p, w.value, w.stamp, LI::stamp_kind[k]});
                             }
                 }
             }
@@ -1560,13 +1574,20 @@ class Runner
     void check_stamp_snaps(const Op& op)
     {
         for (auto& sn : stamp_snaps)
-            if (sn.p->value != sn.value)
-            {
-                VF_REQUIRE(sn.p->stamp > stamp_t0, "assignment_operator_bypassed",
-                           std::string(kind_name(op.kind)) + " changed the value of an object with a user-provided assignment operator from " + std::to_string(sn.value) + " to " +
-                               std::to_string(sn.p->value) + " without calling it (stamp " + std::to_string(sn.p->stamp) + ", clock before the operation " + std::to_string(stamp_t0) + "): its bytes were copied");
-                nt_flag = true;
-            }
+        {
+            const auto w = stamp_view(sn.p);
+            if (w.value == sn.value) continue;
+            // which operator has to have run: Stamped - any; MvStamped - only when the fields were move-assigned or
+            // swapped (its copy assignment is trivial); CpStamped - only when they were copy-assigned
+            const bool must = sn.kind == 1 || (sn.kind == 2 && assign_mode == 2) || (sn.kind == 3 && assign_mode == 1);
+            if (!must) continue;
+            if (sn.kind != 1) st.label(sn.kind == 2 ? "asym_move_assign_checked" : "asym_copy_assign_checked");
+            VF_REQUIRE(w.stamp > stamp_t0, "assignment_operator_bypassed",
+                       std::string(kind_name(op.kind)) + (assign_mode == 1 ? " (copy)" : assign_mode == 2 ? " (move/swap)" : "") + " changed the value of an object with a user-provided " +
+                           (sn.kind == 2 ? "move " : sn.kind == 3 ? "copy " : "") + "assignment operator from " + std::to_string(sn.value) + " to " + std::to_string(w.value) +
+                           " without calling it (stamp " + std::to_string(w.stamp) + ", clock before the operation " + std::to_string(stamp_t0) + "): its bytes were copied");
+            nt_flag = true;
+        }
     }
 
     void step(const Op& op)
@@ -1574,6 +1595,7 @@ class Runner
         ++st.ops_executed;
         ++st.kind_hist[op.kind];
         constructed_this_op = false;
+        assign_mode = 0;
         const bool want_snap = (prop == 10 || prop == 16);
         if (want_snap) take_snaps();
         const bool want_stamps = LI::ANY_STAMPED && (prop == 11 || prop == 12) && assigns_through_references(op.kind);
